@@ -38,7 +38,7 @@ CHECKS = {
    tech='Rocq/Coq refutation + monotonicity theorems; model/implementation correspondence; extracted-spec oracle exploration'),
  'C07': dict(cat='proof', sec='DESIGN.md §6 C07',
    text='Coq theorem C07_rec_sound over the Gallina model of quick_term_or_rec/aligns_with/compare_take: for every normal-form program and EVERY '
-        'cycle limit, Recur implies the real machine never halts, Spinout implies it spins out, Undefined(slot) implies it halts exactly there. '
+        'cycle limit, Recur implies the real machine never halts AND never spins out, Spinout implies it spins out, Undefined(slot) implies it halts exactly there. '
         'Proof: loop invariant (snapshot is a real past configuration, leftmost/rightmost bound every head position since) + compare_take/aligns_with '
         'specification on canonical tapes + the translated-cycle theorem on the absolute-tape semantics (C07_translated_cycle, with the no-spin-out '
         'extension C07_translated_cycle_no_spinout). Tie: real quick_term_or_rec vs extracted model on 2x2-exhaustive NF, random and named programs x limits; '
